@@ -12,7 +12,7 @@ import (
 func init() {
 	register(&core.Rule{ID: "C09.7", Prop: "C09", MinSites: 6,
 		Desc: "settle what was handed out: after an external Write(rb.buf[..]) / Read(rb.buf[..]) bound its count m, every path to a return or to the next such call first moves the cursor (rb.r for a writer, rb.w for a reader) by an expression in m – also on the error path, where a partial count has been consumed/stored all the same",
-		Run: runC09_7})
+		Run:  runC09_7})
 }
 
 func runC09_7(c *core.Ctx) {
@@ -156,7 +156,7 @@ func runC09_7(c *core.Ctx) {
 func init() {
 	register(&core.Rule{ID: "C09.8", Prop: "C09", MinSites: 2,
 		Desc: "a reader is never offered unread bytes: the destination rb.buf[rb.w:…] of an external Read is open-ended only where rb.w >= rb.r is established (the free space runs to the physical end); otherwise it ends at rb.r",
-		Run: runC09_8})
+		Run:  runC09_8})
 }
 
 func runC09_8(c *core.Ctx) {
@@ -238,7 +238,7 @@ func runC09_8(c *core.Ctx) {
 func init() {
 	register(&core.Rule{ID: "C09.9", Prop: "C09", MinSites: 12,
 		Desc: "cursor arithmetic has a meaning: every expression built only from rb.r, rb.w and rb.size is one of w-r (readable, under w > r), r-w (free, under w < r), size-r, size-w, size-r+w (readable, under w <= r), size-w+r (free, under w >= r), as a linear form, on a path where that region is established; anything else (w+r, size-r-w, …) is not a length of this ring",
-		Run: runC09_9})
+		Run:  runC09_9})
 }
 
 func runC09_9(c *core.Ctx) {
@@ -257,101 +257,8 @@ func runC09_9(c *core.Ctx) {
 		if f.Obj == a.grow {
 			continue // grow rebuilds the cursors, C09.1/C09.6
 		}
-		fieldKind := func(e ast.Expr) int {
-			switch flow.FieldOf(f.Info, e) {
-			case a.r:
-				return 1
-			case a.w:
-				return 2
-			case a.size:
-				return 3
-			}
-			return 0
-		}
-		g := f.Graph()
-		p := &flow.Problem{Must: true}
-		p.Node = func(b *flow.Block, i int, n ast.Node, in uint64) uint64 {
-			for _, l := range flow.Assigned(n) {
-				if k := fieldKind(l); k == 1 || k == 2 {
-					in = 0
-				}
-			}
-			for _, call := range flow.Calls(n) {
-				if flow.IsCall(f.Info, call, a.grow) || flow.IsCall(f.Info, call, a.reset) {
-					in = 0
-				}
-			}
-			return in
-		}
-		p.Edge = func(e *flow.Edge, in uint64) uint64 {
-			if e.Cond == nil || e.Tag != nil {
-				return in
-			}
-			x, y, op, ok := flow.Cmp(e.Cond)
-			if !ok {
-				return in
-			}
-			kx, ky := fieldKind(x), fieldKind(y)
-			if kx == 1 && ky == 2 { // r OP w  ==  w OP' r
-				kx, ky = ky, kx
-				switch op {
-				case token.LSS:
-					op = token.GTR
-				case token.LEQ:
-					op = token.GEQ
-				case token.GTR:
-					op = token.LSS
-				case token.GEQ:
-					op = token.LEQ
-				}
-			}
-			if kx != 2 || ky != 1 {
-				return in
-			}
-			t := e.Sense
-			switch op {
-			case token.GTR:
-				if t {
-					in |= fLIN | fLINEQ | fNE
-				} else {
-					in |= fWRAPEQ
-				}
-			case token.GEQ:
-				if t {
-					in |= fLINEQ
-				} else {
-					in |= fWRAP | fWRAPEQ | fNE
-				}
-			case token.LSS:
-				if t {
-					in |= fWRAP | fWRAPEQ | fNE
-				} else {
-					in |= fLINEQ
-				}
-			case token.LEQ:
-				if t {
-					in |= fWRAPEQ
-				} else {
-					in |= fLIN | fLINEQ | fNE
-				}
-			case token.EQL:
-				if t {
-					in |= fLINEQ | fWRAPEQ
-				} else {
-					in |= fNE
-				}
-			}
-			if in&fNE != 0 {
-				if in&fLINEQ != 0 {
-					in |= fLIN
-				}
-				if in&fWRAPEQ != 0 {
-					in |= fWRAP
-				}
-			}
-			return in
-		}
-		sol := g.Solve(p)
+		fieldKind := func(e ast.Expr) int { return ringFieldKind(a, f, e) }
+		sol := ringRegions(a, f)
 		k := 0
 		sol.Walk(func(b *flow.Block, i int, n ast.Node, before uint64) {
 			// maximal additive expressions
@@ -440,5 +347,254 @@ func runC09_9(c *core.Ctx) {
 			}
 			visit(n, false)
 		})
+	}
+}
+
+const (
+	ringLIN    = 1 << iota // w > r
+	ringLINEQ              // w >= r
+	ringWRAP               // w < r
+	ringWRAPEQ             // w <= r
+	ringNE                 // w != r
+)
+
+// ringFieldKind: 1 = rb.r, 2 = rb.w, 3 = rb.size, 0 = anything else.
+func ringFieldKind(a *ringAnch, f *fn, e ast.Expr) int {
+	switch flow.FieldOf(f.Info, e) {
+	case a.r:
+		return 1
+	case a.w:
+		return 2
+	case a.size:
+		return 3
+	}
+	return 0
+}
+
+// ringRegions solves the must-facts about the relative position of the two cursors.
+func ringRegions(a *ringAnch, f *fn) *flow.Solution {
+	const (
+		fLIN    = ringLIN
+		fLINEQ  = ringLINEQ
+		fWRAP   = ringWRAP
+		fWRAPEQ = ringWRAPEQ
+		fNE     = ringNE
+	)
+	g := f.Graph()
+	fieldKind := func(e ast.Expr) int { return ringFieldKind(a, f, e) }
+	p := &flow.Problem{Must: true}
+	p.Node = func(b *flow.Block, i int, n ast.Node, in uint64) uint64 {
+		for _, l := range flow.Assigned(n) {
+			if k := fieldKind(l); k == 1 || k == 2 {
+				in = 0
+			}
+		}
+		for _, call := range flow.Calls(n) {
+			if flow.IsCall(f.Info, call, a.grow) || flow.IsCall(f.Info, call, a.reset) {
+				in = 0
+			}
+		}
+		return in
+	}
+	p.Edge = func(e *flow.Edge, in uint64) uint64 {
+		if e.Cond == nil || e.Tag != nil {
+			return in
+		}
+		x, y, op, ok := flow.Cmp(e.Cond)
+		if !ok {
+			return in
+		}
+		kx, ky := fieldKind(x), fieldKind(y)
+		if kx == 1 && ky == 2 { // r OP w  ==  w OP' r
+			kx, ky = ky, kx
+			switch op {
+			case token.LSS:
+				op = token.GTR
+			case token.LEQ:
+				op = token.GEQ
+			case token.GTR:
+				op = token.LSS
+			case token.GEQ:
+				op = token.LEQ
+			}
+		}
+		if kx != 2 || ky != 1 {
+			return in
+		}
+		t := e.Sense
+		switch op {
+		case token.GTR:
+			if t {
+				in |= fLIN | fLINEQ | fNE
+			} else {
+				in |= fWRAPEQ
+			}
+		case token.GEQ:
+			if t {
+				in |= fLINEQ
+			} else {
+				in |= fWRAP | fWRAPEQ | fNE
+			}
+		case token.LSS:
+			if t {
+				in |= fWRAP | fWRAPEQ | fNE
+			} else {
+				in |= fLINEQ
+			}
+		case token.LEQ:
+			if t {
+				in |= fWRAPEQ
+			} else {
+				in |= fLIN | fLINEQ | fNE
+			}
+		case token.EQL:
+			if t {
+				in |= fLINEQ | fWRAPEQ
+			} else {
+				in |= fNE
+			}
+		}
+		if in&fNE != 0 {
+			if in&fLINEQ != 0 {
+				in |= fLIN
+			}
+			if in&fWRAPEQ != 0 {
+				in |= fWRAP
+			}
+		}
+		return in
+	}
+	return g.Solve(p)
+}
+
+func init() {
+	register(&core.Rule{ID: "C09.11", Prop: "C09", MinSites: 6,
+		Desc: "a cursor never rests at size: every `rb.r += k` / `rb.r++` (likewise rb.w) is either made where the cursor is known to stay below the other one (r under w > r, w under w < r), or is followed on every path to a return by a wrap that covers equality – `% rb.size`, `== rb.size → 0`, `>= rb.size → -= rb.size`, Reset or grow; a wrap guarded by `>` leaves r == size, which ReadByte indexes and which Buffered/IsFull misread as empty",
+		Run: runC09_11})
+}
+
+func runC09_11(c *core.Ctx) {
+	a := ringAnchors(c)
+	if a == nil {
+		return
+	}
+	for _, f := range a.funcs {
+		if f.Obj == a.grow || f.Obj == a.reset {
+			continue
+		}
+		regions := ringRegions(a, f)
+		regionAt := map[ast.Node]uint64{}
+		regions.Walk(func(b *flow.Block, i int, n ast.Node, before uint64) { regionAt[n] = before })
+		type inc struct {
+			node ast.Node
+			cur  *types.Var
+			kind int
+		}
+		var incs []inc
+		ast.Inspect(f.Decl.Body, func(n ast.Node) bool {
+			switch x := n.(type) {
+			case *ast.FuncLit:
+				return false
+			case *ast.IncDecStmt:
+				if x.Tok == token.INC {
+					if k := ringFieldKind(a, f, x.X); k == 1 || k == 2 {
+						incs = append(incs, inc{x, flow.FieldOf(f.Info, x.X), k})
+					}
+				}
+			case *ast.AssignStmt:
+				if x.Tok == token.ADD_ASSIGN && len(x.Lhs) == 1 {
+					if k := ringFieldKind(a, f, x.Lhs[0]); k == 1 || k == 2 {
+						incs = append(incs, inc{x, flow.FieldOf(f.Info, x.Lhs[0]), k})
+					}
+				}
+			}
+			return true
+		})
+		for i, in := range incs {
+			in := in
+			name := "rb.r"
+			need := uint64(ringLIN)
+			if in.kind == 2 {
+				name = "rb.w"
+				need = ringWRAP
+			}
+			construct := name + " advance #" + itoa(i+1) + " wraps"
+			if regionAt[in.node]&need != 0 {
+				c.Ok(f.Name, construct, in.node.Pos(), "made where the cursor stays below the other cursor")
+				continue
+			}
+			const (
+				sIdle = iota
+				sOwed
+			)
+			isCur := func(e ast.Expr) bool { return flow.FieldOf(f.Info, e) == in.cur }
+			au := &flow.Auto{Start: sIdle}
+			au.Node = func(b *flow.Block, j int, n ast.Node, st int) int {
+				if n == in.node {
+					return sOwed
+				}
+				if st != sOwed {
+					return st
+				}
+				if as, ok := n.(*ast.AssignStmt); ok && as.Tok == token.ASSIGN {
+					for k, l := range as.Lhs {
+						if !isCur(l) || k >= len(as.Rhs) {
+							continue
+						}
+						r := ast.Unparen(as.Rhs[k])
+						if tv, ok := f.Info.Types[r]; ok && tv.Value != nil && tv.Value.String() == "0" {
+							return sIdle
+						}
+						if be, ok := r.(*ast.BinaryExpr); ok && be.Op == token.REM && flow.FieldOf(f.Info, be.Y) == a.size {
+							return sIdle
+						}
+					}
+				}
+				for _, call := range flow.Calls(n) {
+					if flow.IsCall(f.Info, call, a.reset) || flow.IsCall(f.Info, call, a.grow) {
+						return sIdle
+					}
+				}
+				return st
+			}
+			au.Edge = func(e *flow.Edge, st int) int {
+				if st != sOwed || e.Cond == nil || e.Tag != nil {
+					return st
+				}
+				x, y, op, ok := flow.Cmp(e.Cond)
+				if !ok {
+					return st
+				}
+				if isCur(y) && flow.FieldOf(f.Info, x) == a.size {
+					x, y = y, x
+					switch op {
+					case token.LEQ:
+						op = token.GEQ
+					case token.GEQ:
+						op = token.LEQ
+					case token.LSS:
+						op = token.GTR
+					case token.GTR:
+						op = token.LSS
+					}
+				}
+				if isCur(x) && flow.FieldOf(f.Info, y) == a.size {
+					switch op {
+					case token.EQL, token.GEQ, token.LSS:
+						return sIdle // both outcomes of a test that separates c == size from c < size
+					}
+				}
+				return st
+			}
+			sol := f.Graph().Run(au)
+			bad := token.NoPos
+			sol.AtExit(func(b *flow.Block, _ uint64) {
+				if sol.Out(b)&(1<<sOwed) != 0 && bad == token.NoPos {
+					bad = b.Return.Pos()
+				}
+			})
+			c.Check(bad == token.NoPos, f.Name, construct, in.node.Pos(), "followed by a wrap that covers equality on every path",
+				name+" is advanced here and a return is reachable without a wrap that maps "+name+" == rb.size to 0 (only `%`, `== size`, `>= size`, Reset or grow do): the cursor can rest one past the end of the array – ReadByte/WriteByte index out of range, and with the other cursor at 0 a full buffer reads as empty")
+		}
 	}
 }
